@@ -143,34 +143,36 @@ func genCLI(seed uint64, prop, tier, mode string) *Plan {
 		// ---- selection
 		if g.Chance(0.65) {
 			o := &FilterOpts{}
-			switch g.Intn(6) {
-			case 0:
-				s := pick(g, []string{`^e_`, `^w_`, `_crl_`, `dnsname`, `^e_.*ca.*`, `san|ian`, `rsa`, `^n_`, `^e_sub_cert`, `.*`, `^$`})
+			// flags are drawn independently (a pattern excludes name lists)
+			if g.Chance(0.25) {
+				s := pick(g, []string{`^e_`, `^w_`, `_crl_`, `dnsname`, `^e_.*ca.*`, `san|ian`, `rsa`, `^n_`, `^e_sub_cert`, `.*`, `^$`, `crl_`, `ocsp`, `subject_common_name`, `_max_length$`})
 				o.NameFilter = &s
-			case 1:
-				for _, j := range g.subset(len(realNames), g.Range(1, 30)) {
-					o.IncludeNames = append(o.IncludeNames, realNames[j])
+			} else {
+				if g.Chance(0.4) {
+					for _, j := range g.subset(len(realNames), g.Range(1, 40)) {
+						o.IncludeNames = append(o.IncludeNames, realNames[j])
+					}
 				}
-			case 2:
-				for _, j := range g.subset(len(realNames), g.Range(1, 8)) {
-					o.ExcludeNames = append(o.ExcludeNames, realNames[j])
+				if g.Chance(0.35) {
+					for _, j := range g.subset(len(realNames), g.Range(1, 8)) {
+						o.ExcludeNames = append(o.ExcludeNames, realNames[j])
+					}
+					if len(o.IncludeNames) > 0 && g.Chance(0.5) {
+						o.ExcludeNames = append(o.ExcludeNames, o.IncludeNames[0])
+					}
 				}
-			case 3:
+			}
+			if g.Chance(0.3) {
 				o.IncludeSources = []string{pick(g, realSources)}
 				if g.Chance(0.4) {
 					o.IncludeSources = append(o.IncludeSources, pick(g, realSources))
 				}
-			case 4:
+			}
+			if g.Chance(0.3) {
 				o.ExcludeSources = []string{pick(g, realSources)}
 				if g.Chance(0.4) {
 					o.ExcludeSources = append(o.ExcludeSources, pick(g, realSources))
 				}
-			case 5:
-				for _, j := range g.subset(len(realNames), g.Range(2, 40)) {
-					o.IncludeNames = append(o.IncludeNames, realNames[j])
-				}
-				o.ExcludeNames = []string{o.IncludeNames[0]}
-				o.ExcludeSources = []string{pick(g, realSources)}
 			}
 			if g.Chance(0.3) {
 				for i := range o.IncludeNames {
